@@ -237,7 +237,11 @@ def rand_universe(rng, o=None, uid=0):
             mno += 1
             if style == 'bare':
                 cands = [t['name'] for t in types if not t.get('has_xmldata') and t['fields']]
-                if not cands:
+                if getattr(o, 'bare_prims', False) and rng.random() < .35:
+                    # the one argument of a bare method need not be an object: a primitive, an enumeration or an array of them
+                    at_ = _strip_occ(rand_tspec(rng, o, [], 1))
+                    args = [['arg', at_['seq'] if 'seq' in at_ else at_]]
+                elif not cands:
                     style = 'wrapped'
                 else:
                     args = [['arg', {'ref': rng.choice(cands)}]]
